@@ -108,6 +108,13 @@ type Item struct {
 	secret int
 }
 
+// Inner1 shares its name with a type of the setup package.
+type Inner1 struct {
+	A     int
+	B     string
+	unexp int
+}
+
 func NewItem(id int, note string, secret int) Item { return Item{ID: id, Note: note, secret: secret} }
 func (i Item) Label() string                      { return "lb:" + i.Note }
 func (i Item) hid() int                           { return i.secret }
@@ -147,6 +154,17 @@ func FixedPackages(files tool.Files) {
 	files["deep/deep.go"] = DeepSrc
 	files["api/v2/v2.go"] = V2Src
 	files["dot/dot.go"] = DotSrc
+}
+
+// hiddenPairs: struct types with members the generated package cannot see.
+var hiddenPairs = []FieldPair{
+	{"nested", "ext.Pub2", "ext.Pub1", "field"},
+	{"nested", "ext.WithAnon", "LocalAnon", "field"},
+	{"nested", "LocalItem", "deep.Item", "field"},
+	{"ptrstruct", "*LocalItem", "*deep.Item", "field"},
+	{"nested", "Inner2", "deep.Inner1", "field"},
+	{"nested", "Inner2", "Inner1", "field"},
+	{"identical", "ext.Pub1", "ext.Pub1", "field"},
 }
 
 // FieldPair is one destination field with what the source offers for it.
@@ -209,6 +227,7 @@ var pairCatalogue = []FieldPair{
 	{"nested", "LocalItem", "deep.Item", "field"},
 	{"ptrstruct", "*LocalItem", "*deep.Item", "field"},
 	{"slice", "[]deep.Item", "[]deep.Item", "field"},
+	{"nested", "Inner2", "deep.Inner1", "field"}, // a foreign homonym of the local Inner1
 	{"identical", "v2.Kind", "v2.Kind", "field"}, // import path .../api/v2, package v2
 	{"identical", "v2.Pod", "v2.Pod", "field"},
 	{"convertible", "v2.Kind", "string", "field"},
@@ -459,6 +478,7 @@ type Options struct {
 	CrossConv       float64 // probability that a :conv names a method generated from another converter interface
 	Clones          float64 // probability of a method converting a struct type to itself
 	CaseBias        bool    // prefer :case:off and explicit notations whose destination differs from a field only in case (C19)
+	HiddenBias      bool    // prefer pairs over struct types with members the generated package cannot see, and skip patterns fitting them (C05)
 	UnreturnedErr   float64 // probability of a method without error result whose notations name an error-returning source (must be rejected)
 }
 
@@ -514,6 +534,14 @@ func (g *genState) genStructPair(imported bool) (src, dst string, fields []Field
 	var pairs []FieldPair
 	for len(pairs) < n {
 		p := pairCatalogue[g.rng.Intn(len(pairCatalogue))]
+		if g.opt.HiddenBias && g.rng.Intn(3) == 0 {
+			p = hiddenPairs[g.rng.Intn(len(hiddenPairs))]
+		}
+		if p.Src == "deep.Inner1" && g.rng.Intn(2) == 0 {
+			// the local homonym is walked first in the same method
+			pairs = append(pairs, FieldPair{"nested", "Inner2", "Inner1", "field"})
+			g.feat("homonym-local-then-foreign")
+		}
 		if len(g.opt.OnlyClasses) > 0 {
 			ok := false
 			for _, c := range g.opt.OnlyClasses {
@@ -692,6 +720,7 @@ func (g *genState) genMethod(idx int) Method {
 		}
 	}
 	style := "return"
+	reversed := false
 	if g.opt.Styles {
 		switch g.rng.Intn(4) {
 		case 0:
@@ -707,6 +736,7 @@ func (g *genState) genMethod(idx int) Method {
 		if style == "arg" && len(m.Args) == 0 && g.rng.Intn(4) == 0 {
 			m.Notations = append(m.Notations, ":reverse")
 			m.Features = append(m.Features, "reverse")
+			reversed = true
 		}
 	}
 	// two error-returning converters on members of one nested destination struct (C07: nested call sites)
@@ -751,6 +781,10 @@ func (g *genState) genMethod(idx int) Method {
 			m.Features = append(m.Features, "skip")
 		case 1:
 			pats := []string{"/^" + path[:1] + "/", "/idden$/", "/\\.h/", "/(?i)" + strings.ToLower(path) + "/", "/^" + path + "\\./", "/unexp/", "/\\.y$/"}
+			if g.opt.HiddenBias && g.rng.Intn(2) == 0 {
+				// patterns fitting members the generated package cannot see
+				pats = []string{"/idden$/", "/\\.h/", "/unexp/", "/\\.y$/", "/ecret$/", "/(?i)HIDDEN/", "/^" + path + "\\.[a-z]/"}
+			}
 			m.Notations = append(m.Notations, ":skip "+g.pick(pats))
 			m.Features = append(m.Features, "skip-re")
 		case 2:
@@ -792,8 +826,15 @@ func (g *genState) genMethod(idx int) Method {
 			m.Notations = append(m.Notations, ":conv "+g.pick(convs)+" "+g.pick(srcs)+" "+path)
 			m.Features = append(m.Features, "conv")
 		case 4:
-			m.Notations = append(m.Notations, ":literal "+path+" "+literalFor(g.rng, f.Type))
-			m.Features = append(m.Features, "literal")
+			lt := f.Type
+			if reversed {
+				// under :reverse the assigned struct is the source type: the literal must have that member's type
+				lt = f.Pair.Src
+			}
+			if lt != "" {
+				m.Notations = append(m.Notations, ":literal "+path+" "+literalFor(g.rng, lt))
+				m.Features = append(m.Features, "literal")
+			}
 		case 5:
 			if len(m.Args) > 0 {
 				k := 1 + g.rng.Intn(len(m.Args)+2)
@@ -826,7 +867,7 @@ func (g *genState) genMethod(idx int) Method {
 				case 1:
 					m.Notations = append(m.Notations, ":conv localConv SpareInt "+v)
 				default:
-					m.Notations = append(m.Notations, ":literal "+v+" "+literalFor(g.rng, f.Type))
+					m.Notations = append(m.Notations, ":literal "+v+" "+literalFor(g.rng, map[bool]string{false: f.Type, true: f.Pair.Src}[reversed && f.Pair.Src != ""]))
 				}
 				m.Features = append(m.Features, "explicit-target-case-variant")
 				break
